@@ -59,6 +59,6 @@ Violated(e) == CASE e.q = "nav" -> JNav(e) [] e.q = "common" -> JCommon(e) [] e.
                  [] e.q = "byattr" -> JByAttr(e)
 
 TInit == l = 1
-TNext == l <= Len(Trace) /\ PrintT(<<"J", l, Trace[l].id, Violated(Trace[l])>>) /\ l' = l + 1
+TNext == l <= Len(Trace) /\ PrintT(ToString(<<"J", l, Trace[l].id, Violated(Trace[l])>>)) /\ l' = l + 1
 Accepted == TLCGet("stats").diameter - 1 = Len(Trace)
 =============================================================================
